@@ -26,7 +26,7 @@ ASSUMPTIONS = [
 
 
 def build(nag, a_steps, ag_steps, masks, gets, transports, a_type="time-based", until=6, extra_conn=True,
-          conn_kind="plain"):
+          conn_kind="plain", same_call=False):
     sims = [_sim("A", a_type, steps=a_steps)]
     conns, asyncs = [], []
     for i in range(nag):
@@ -52,6 +52,8 @@ def build(nag, a_steps, ag_steps, masks, gets, transports, a_type="time-based", 
             conns.append(_c("A", "po", sid, "mi", weak=True, init=True))
         else:
             conns.append(_c("A", "po", sid, "mi"))
+        if same_call:
+            conns[-1]["async"] = True        # async_requests=True on the very call that makes the data-flow
         asyncs.append(["A", sid])
     return {"tree": [s["sid"] for s in sims], "sims": sims, "conns": conns, "async": asyncs,
             "initial_events": {}, "until": until, "world": {"cache": True}, "run": {"lazy_stepping": True}}
@@ -158,6 +160,14 @@ def micro():
     w = build(2, [1], [[1], [2]], [[1], [1]], [[0], [0]], [0, 1], until=4, conn_kind="weak")
     w["tree"] = [w["tree"]]
     out.append(w)
+    # the flag given on the same connect() call as a plain / time-shifted / weak data-flow, remote controller
+    out.append(build(1, [1], [[1]], [[1]], [[0]], [0], until=4, same_call=True))
+    sc = build(1, [1], [[1]], [[1]], [[0]], [0], until=4, conn_kind="shift", same_call=True)
+    sc["sims"][0]["transport"] = "mem"
+    out.append(sc)
+    sw = build(1, [1], [[1]], [[1]], [[0]], [1], until=4, conn_kind="weak", same_call=True)
+    sw["tree"] = [sw["tree"]]
+    out.append(sw)
     # the written attribute also has an ordinary persistent source, cache off (values remembered by mosaik)
     out.append(with_producer(build(1, [1], [[1]], [[1, 0]], [[0]], [0], until=4), [2], cache=False))
     out.append(with_producer(build(2, [2], [[1], [1]], [[1], [0, 1]], [[0], [0]], [0, 1], until=5), [1], cache=True))
@@ -223,7 +233,7 @@ def shard(prop, tier, seed, shard, nshards):
         tr = [draw(st.sampled_from([0, 0, 1])) for _ in range(nag)]
         ck = draw(st.sampled_from(["plain", "plain", "shift", "weak"]))
         scn = build(nag, a_steps, ag_steps, masks, gets, tr, a_type=draw(st.sampled_from(["time-based", "hybrid"])),
-                    until=draw(st.integers(2, 8)), conn_kind=ck)
+                    until=draw(st.integers(2, 8)), conn_kind=ck, same_call=draw(st.booleans()))
         grouped = draw(st.sampled_from([0, 0, 1, 2])) if ck != "weak" else 1
         if grouped == 1:
             scn["tree"] = [scn["tree"]]                      # everybody in one group
